@@ -151,6 +151,8 @@ focus(struct initparser *p)
 	case TYPESTRUCT:
 	case TYPEUNION:
 		p->sub->u.mem = p->sub->type->u.structunion.members;
+		if (!p->sub->u.mem)
+			error(&tok.loc, "cannot initialize object of opaque type with initializer list");
 		t = p->sub->u.mem->type;
 		break;
 	default:
